@@ -77,6 +77,11 @@ func (s *State) leafGet(l loc, comp string, w int) *Term {
 		t := Select(h, l.ref, w)
 		return t
 	}
+	if s.trace != nil {
+		s.trace.reads = append(s.trace.reads, traceRead{l.ref.String(), l.idx})
+	}
+	s.instantiate(l.ref.String(), l.idx)
+	h, _, _ = s.heapArr(l, comp, es) // instantiation may not change the heap, but keep the read after it
 	inner := SelectSort(h, l.ref, "(Array I64 "+es+")")
 	return Select(inner, l.idx, w)
 }
